@@ -105,12 +105,18 @@ func JudgeNodes(shared bool) Judge {
 		v := &Verdict{History: h, Findings: EngineFindings(h)}
 		var tot NodeFacts
 		resvSlot := 0
+		draBinds := 0
 		for _, rec := range h.Cycles {
 			if rec.Panic != "" || rec.Hung || rec.Starved {
 				continue
 			}
 			fs, facts := CheckNodes(rec, shared)
 			v.Findings = append(v.Findings, fs...)
+			if !shared {
+				dfs, n := CheckDevices(rec)
+				v.Findings = append(v.Findings, dfs...)
+				draBinds += n
+			}
 			// outside the statement (the reservation pod is created by the binder, not bound by the scheduler):
 			// observed and counted, never a verdict. See DESIGN.md section 5 item 9.
 			if !shared && len(ReservationSlotClause(rec)) > 0 {
@@ -139,6 +145,8 @@ func JudgeNodes(shared bool) Judge {
 		add(tot.OpenWhileReleasing > 0, "opens-group-while-another-releases")
 		add(tot.StartInconsistent, "a-node-started-oversubscribed(node-skipped)")
 		add(resvSlot > 0, "observed:new-group-bound-without-idle-slot-for-reservation-pod")
+		add(w.HasDRA(), "world-with-dra")
+		add(draBinds > 0, "bind-of-pod-with-dra-claim")
 		if shared {
 			v.Nontrivial = tot.JoinGroup > 0 || tot.OpenWhileReleasing > 0
 		} else {
